@@ -13,6 +13,7 @@ namespace EqsigVerif.Model.Surface
 open EqsigVerif.Wire (ErrKind)
 open EqsigVerif.Np EqsigVerif.Interp
 open EqsigVerif.Model.TimeShift
+open EqsigVerif.Model.TimeStep (truncZ ceil_eq floor_eq)
 
 /-! ### the delay operator `D_s` -/
 
@@ -60,5 +61,618 @@ theorem shiftedRow_zero_nat (values : List ℚ) (s ms : ℕ) :
   congr 2
   · congr 1; omega
   · omega
+
+
+/-! ### `acc_series` for scalar reductions -/
+
+/-- spec of one acceleration row: `up_red·a⁰[k] ∓ down_red·(D_s a)[k]` on the padded width `n + ms`
+(`−` nodal, `+` anti-nodal) -/
+def accRow (values : List ℚ) (ms : ℕ) (s : ℚ) (nodal : Bool) (u d : ℚ) : List ℚ :=
+  List.zipWith (fun D a0 => u * a0 + (if nodal then -1 else 1) * (d * D))
+    (delayed values s (values.length + ms)) (values ++ List.replicate ms 0)
+
+@[simp] theorem length_accRow (values : List ℚ) (ms : ℕ) (s : ℚ) (nodal : Bool) (u d : ℚ) :
+    (accRow values ms s nodal u d).length = values.length + ms := by
+  simp [accRow]
+
+/-- spec of one energy row: `½·v·|v|`, `v = cumtrapz(acc row)` -/
+def energyRow (values : List ℚ) (dt : ℚ) (ms : ℕ) (s : ℚ) (nodal : Bool) (u d : ℚ) : List ℚ :=
+  (cumtrapz dt (accRow values ms s nodal u d)).map halfVAbsV
+
+@[simp] theorem length_energyRow (values : List ℚ) (dt : ℚ) (ms : ℕ) (s : ℚ) (nodal : Bool) (u d : ℚ) :
+    (energyRow values dt ms s nodal u d).length = values.length + ms := by
+  simp [energyRow]
+
+theorem accSeries_scalar (values : List ℚ) (dt : ℚ) (tts : List ℚ) (nodal : Bool) (u d : ℚ) (ms : ℕ)
+    (hdt : dt ≠ 0) (hv : values ≠ []) (hms : maxShift tts dt = .ok ms) :
+    accSeries values dt tts nodal (.scalar u d) =
+      .ok (tts.map (fun t => accRow values ms (2 * t / dt) nodal u d)) := by
+  have hn : values.length ≠ 0 := by simpa using hv
+  unfold accSeries
+  simp only [hdt, if_false, hms, bind, Except.bind, hn, false_and, pure, Except.pure, List.map_map]
+  congr 1
+  apply List.map_congr_left
+  intro t _
+  simp only [Function.comp, accRow, padRight]
+  congr 1
+  funext x y
+  ring
+
+theorem calcSurfaceEnergy_scalar (values : List ℚ) (dt : ℚ) (tts : List ℚ) (nodal : Bool) (u d : ℚ) (ms : ℕ)
+    (stt : ℚ) (trim start : Bool)
+    (hdt : dt ≠ 0) (hv : values ≠ []) (hms : maxShift tts dt = .ok ms) :
+    calcSurfaceEnergy values dt tts nodal (.scalar u d) stt trim start =
+      (trimToLength (tts.map (fun t => energyRow values dt ms (2 * t / dt) nodal u d))
+          values.length tts dt trim start stt) >>= squeeze tts.length := by
+  have hn : values.length ≠ 0 := by simpa using hv
+  unfold calcSurfaceEnergy
+  rw [accSeries_scalar values dt tts nodal u d ms hdt hv hms]
+  simp only [bind, Except.bind, hn, if_false, energyRows, List.map_map]
+  rfl
+
+theorem trimToLength_none (rows : List (List ℚ)) (n : ℕ) (tts : List ℚ) (dt stt : ℚ) (hdt : dt ≠ 0) :
+    trimToLength rows n tts dt false false stt = .ok rows := by
+  simp [trimToLength, hdt]
+
+/-! ### cumulative absolute change -/
+
+theorem cumAbsRow_pairwise (row : List ℚ) : (cumAbsRow row).Pairwise (· ≤ ·) := by
+  unfold cumAbsRow cumsum
+  apply cumsumFrom_pairwise
+  intro x hx
+  simp only [absL, List.mem_map] at hx
+  obtain ⟨y, _, rfl⟩ := hx
+  exact absv_nonneg y
+
+@[simp] theorem length_diffFrom (p : ℚ) (l : List ℚ) : (diffFrom p l).length = l.length := by
+  induction l generalizing p with
+  | nil => rfl
+  | cons x xs ih => simp [diffFrom, ih]
+
+@[simp] theorem length_cumAbsRow (row : List ℚ) : (cumAbsRow row).length = row.length := by
+  simp [cumAbsRow, absL]
+
+
+/-! ### `mapM` inversion, rows of an output -/
+
+theorem mapM_ok_inv {α β : Type} (f : α → Except ErrKind β) (l : List α) (out : List β)
+    (h : l.mapM f = .ok out) : List.Forall₂ (fun a b => f a = .ok b) l out := by
+  induction l generalizing out with
+  | nil =>
+    have : out = [] := by
+      have h' : (Except.ok [] : Except ErrKind (List β)) = .ok out := h
+      injection h' with h''; exact h''.symm
+    subst this; exact List.Forall₂.nil
+  | cons a as ih =>
+    rw [List.mapM_cons] at h
+    cases hfa : f a with
+    | error e => rw [hfa] at h; cases h
+    | ok b =>
+      rw [hfa] at h
+      cases hrest : as.mapM f with
+      | error e => rw [hrest] at h; cases h
+      | ok bs =>
+        rw [hrest] at h
+        have : out = b :: bs := by
+          have h' : (Except.ok (b :: bs) : Except ErrKind (List β)) = .ok out := h
+          injection h' with h''; exact h''.symm
+        subst this
+        exact List.Forall₂.cons hfa (ih bs hrest)
+
+theorem forall₂_exists_left {α β : Type} {R : α → β → Prop} {l : List α} {out : List β}
+    (h : List.Forall₂ R l out) {b : β} (hb : b ∈ out) : ∃ a ∈ l, R a b := by
+  induction h with
+  | nil => simp at hb
+  | cons hab _ ih =>
+    rcases List.mem_cons.mp hb with rfl | hb'
+    · exact ⟨_, by simp, hab⟩
+    · obtain ⟨a, ha, hr⟩ := ih hb'
+      exact ⟨a, by simp [ha], hr⟩
+
+/-- the rows of a result (`1-D` result = one row) -/
+def Out.rowsList : Out → List (List ℚ)
+  | .row r => [r]
+  | .rows rs => rs
+
+theorem squeeze_rows (m : ℕ) (rows : List (List ℚ)) (out : Out) (h : squeeze m rows = .ok out) :
+    ∀ r ∈ out.rowsList, r ∈ rows := by
+  unfold squeeze at h
+  split at h
+  · cases rows with
+    | nil => cases h
+    | cons r rs =>
+      have : out = .row r := by
+        have h' : (Except.ok (Out.row r) : Except ErrKind Out) = .ok out := h
+        injection h' with h''; exact h''.symm
+      subst this
+      intro r' hr'
+      simp only [Out.rowsList, List.mem_singleton] at hr'
+      subst hr'; simp
+  · have : out = .rows rows := by
+      have h' : (Except.ok (Out.rows rows) : Except ErrKind Out) = .ok out := h
+      injection h' with h''; exact h''.symm
+    subst this
+    intro r' hr'; exact hr'
+
+/-! ### `trim_to_length`: lengths, zero preservation -/
+
+theorem assignBroadcast_inv (t : ℕ) (src s : List ℚ) (h : assignBroadcast t src = .ok s) :
+    s.length = t ∧ ∀ v ∈ s, v ∈ src := by
+  unfold assignBroadcast at h
+  split at h
+  · rename_i hl
+    have : s = src := by injection h with h'; exact h'.symm
+    subst this; exact ⟨hl, fun v hv => hv⟩
+  · split at h
+    · rename_i hl1
+      have : s = List.replicate t (src.getD 0 0) := by injection h with h'; exact h'.symm
+      subst this
+      refine ⟨by simp, ?_⟩
+      intro v hv
+      rw [List.mem_replicate] at hv
+      rw [hv.2]; exact getD_mem src 0 (by omega)
+    · cases h
+
+theorem mem_pySlice {α : Type} (l : List α) (a b : Option ℤ) (v : α) (h : v ∈ pySlice l a b) : v ∈ l := by
+  unfold pySlice at h
+  exact List.mem_of_mem_take (List.mem_of_mem_drop h)
+
+theorem trimRow_inv (row : List ℚ) (npts : ℕ) (sis : ℤ) (r : List ℚ) (h : trimRow row npts sis = .ok r) :
+    r.length = npts ∧ ∀ v ∈ r, v = 0 ∨ v ∈ row := by
+  unfold trimRow at h
+  split at h
+  · obtain ⟨h1, h2⟩ := assignBroadcast_inv _ _ _ h
+    exact ⟨h1, fun v hv => Or.inr (mem_pySlice _ _ _ _ (h2 v hv))⟩
+  · simp only [bind, Except.bind] at h
+    split at h
+    · cases h
+    · rename_i s hs
+      obtain ⟨h1, h2⟩ := assignBroadcast_inv _ _ _ hs
+      have : r = List.replicate (min sis.toNat npts) 0 ++ s := by
+        have h' : (Except.ok (List.replicate (min sis.toNat npts) 0 ++ s) : Except ErrKind (List ℚ)) = .ok r := h
+        injection h' with h''; exact h''.symm
+      subst this
+      constructor
+      · simp only [List.length_append, List.length_replicate, h1]; omega
+      · intro v hv
+        rw [List.mem_append] at hv
+        rcases hv with hv | hv
+        · left; exact (List.mem_replicate.mp hv).2
+        · right; exact mem_pySlice _ _ _ _ (h2 v hv)
+
+theorem trimToLength_inv (values : List (List ℚ)) (npts : ℕ) (tts : List ℚ) (dt : ℚ) (trim start : Bool)
+    (stt : ℚ) (out : List (List ℚ)) (hts : trim = true ∨ start = true)
+    (h : trimToLength values npts tts dt trim start stt = .ok out) :
+    ∃ w, trimWidth npts tts dt trim start stt = .ok w ∧ out.length = tts.length ∧
+      ∀ r ∈ out, r.length = w ∧ ∀ v ∈ r, v = 0 ∨ ∃ row ∈ values, v ∈ row := by
+  unfold trimToLength at h
+  have hnn : (!start && !trim) = false := by
+    rcases hts with h | h <;> simp [h]
+  split at h
+  · cases h
+  simp only [hnn, Bool.false_eq_true, if_false] at h
+  cases hw : trimWidth npts tts dt trim start stt with
+  | error e => simp only [hw] at h; cases h
+  | ok w =>
+    simp only [hw] at h
+    have hF := mapM_ok_inv _ _ _ h
+    refine ⟨w, rfl, ?_, ?_⟩
+    · have := hF.length_eq
+      simpa using this.symm
+    · intro r hr
+      obtain ⟨i, -, hfi⟩ := forall₂_exists_left hF hr
+      cases hv : values[i]? with
+      | none => simp only [hv] at hfi; cases hfi
+      | some row =>
+        simp only [hv] at hfi
+        obtain ⟨h1, h2⟩ := trimRow_inv _ _ _ _ hfi
+        refine ⟨h1, fun v hv' => ?_⟩
+        rcases h2 v hv' with h0 | hm
+        · exact Or.inl h0
+        · exact Or.inr ⟨row, List.mem_of_getElem? hv, hm⟩
+
+
+/-! ### `max_shift` -/
+
+theorem maxShift_spec (tts : List ℚ) (dt : ℚ) (ms : ℕ) (h : maxShift tts dt = .ok ms) :
+    ∃ t ∈ tts, (∀ t' ∈ tts, 2 * t' / dt ≤ 2 * t / dt) ∧ 0 ≤ truncZ (2 * t / dt) ∧
+      ms = (truncZ (2 * t / dt)).toNat := by
+  unfold maxShift at h
+  cases tts with
+  | nil => simp [maxL?] at h
+  | cons t0 ts =>
+    simp only [List.map_cons, maxL?] at h
+    set M := maxFrom (2 * t0 / dt) (ts.map (fun t => 2 * t / dt)) with hM
+    split at h
+    · cases h
+    · rename_i hneg
+      have hms : ms = (truncZ M).toNat := by injection h with h'; exact h'.symm
+      obtain ⟨hle0, hle⟩ := le_maxFrom (2 * t0 / dt) (ts.map (fun t => 2 * t / dt))
+      have hmem := maxFrom_mem (2 * t0 / dt) (ts.map (fun t => 2 * t / dt))
+      rw [← hM] at hle0 hle hmem
+      have hall : ∀ t' ∈ t0 :: ts, 2 * t' / dt ≤ M := by
+        intro t' ht'
+        rcases List.mem_cons.mp ht' with rfl | ht'
+        · exact hle0
+        · exact hle _ (List.mem_map.mpr ⟨t', ht', rfl⟩)
+      rcases hmem with hmem | hmem
+      · exact ⟨t0, by simp, by rw [← hmem]; exact hall, by rw [← hmem]; omega, by rw [← hmem]; exact hms⟩
+      · obtain ⟨t, ht, hte⟩ := List.mem_map.mp hmem
+        exact ⟨t, by simp [ht], by rw [hte]; exact hall, by rw [hte]; omega, by rw [hte]; exact hms⟩
+
+theorem truncZ_mono (a b : ℚ) (h : a ≤ b) : truncZ a ≤ truncZ b := by
+  unfold truncZ
+  by_cases ha : a < 0
+  · by_cases hb : b < 0
+    · rw [if_pos ha, if_pos hb, ceil_eq, ceil_eq]; exact Int.ceil_le_ceil h
+    · rw [if_pos ha, if_neg hb, ceil_eq]
+      have h1 : ⌈a⌉ ≤ 0 := by
+        rw [Int.ceil_le]; exact_mod_cast ha.le
+      have h2 : 0 ≤ ⌊b⌋ := Int.floor_nonneg.mpr (not_lt.mp hb)
+      exact le_trans h1 h2
+  · have hb : ¬ b < 0 := by
+      rw [not_lt] at ha ⊢; exact le_trans ha h
+    rw [if_neg ha, if_neg hb]; exact Int.floor_le_floor h
+
+/-- the single-travel-time `max_shift` never exceeds the batch one -/
+theorem maxShift_single_le (tts : List ℚ) (dt : ℚ) (ms msi : ℕ) (t : ℚ) (ht : t ∈ tts)
+    (h : maxShift tts dt = .ok ms) (hi : maxShift [t] dt = .ok msi) : msi ≤ ms := by
+  obtain ⟨tm, htm, hmax, h0, rfl⟩ := maxShift_spec tts dt ms h
+  obtain ⟨t1, ht1, -, h01, rfl⟩ := maxShift_spec [t] dt msi hi
+  have : t1 = t := by simpa using ht1
+  subst this
+  have := truncZ_mono _ _ (hmax t1 ht)
+  omega
+
+/-! ### prefixes -/
+
+theorem cumtrapzFrom_take (dx acc prev : ℚ) (l : List ℚ) (k : ℕ) :
+    cumtrapzFrom dx acc prev (l.take k) = (cumtrapzFrom dx acc prev l).take k := by
+  induction l generalizing acc prev k with
+  | nil => simp [cumtrapzFrom]
+  | cons y ys ih =>
+    cases k with
+    | zero => simp [cumtrapzFrom]
+    | succ k => simp [cumtrapzFrom, ih]
+
+theorem cumtrapz_take (dx : ℚ) (l : List ℚ) (k : ℕ) :
+    cumtrapz dx (l.take k) = (cumtrapz dx l).take k := by
+  cases l with
+  | nil => simp [cumtrapz]
+  | cons y ys =>
+    cases k with
+    | zero => simp [cumtrapz]
+    | succ k => simp [cumtrapz, cumtrapzFrom_take]
+
+theorem delayed_take (values : List ℚ) (s : ℚ) (w w' : ℕ) (h : w' ≤ w) :
+    (delayed values s w).take w' = delayed values s w' := by
+  unfold delayed
+  rw [← List.map_take, List.take_range, min_eq_left h]
+
+theorem accRow_take (values : List ℚ) (ms msi : ℕ) (h : msi ≤ ms) (s : ℚ) (nodal : Bool) (u d : ℚ) :
+    (accRow values ms s nodal u d).take (values.length + msi) = accRow values msi s nodal u d := by
+  unfold accRow
+  rw [List.take_zipWith, delayed_take _ _ _ _ (by omega)]
+  congr 1
+  rw [List.take_append, List.take_of_length_le (by omega)]
+  simp only [Nat.add_sub_cancel_left, List.take_replicate, min_eq_left h]
+
+theorem energyRow_take (values : List ℚ) (dt : ℚ) (ms msi : ℕ) (h : msi ≤ ms) (s : ℚ) (nodal : Bool) (u d : ℚ) :
+    (energyRow values dt ms s nodal u d).take (values.length + msi) = energyRow values dt msi s nodal u d := by
+  unfold energyRow
+  rw [← List.map_take, ← cumtrapz_take, accRow_take _ _ _ h]
+
+/-! ### `trim=True, start=False`: every row is cut to its first `npts` samples -/
+
+theorem trimRow_zero (row : List ℚ) (n : ℕ) (h : n ≤ row.length) : trimRow row n 0 = .ok (row.take n) := by
+  unfold trimRow
+  have hs : pySlice row none (some ((n : ℤ) - 0)) = row.take n := by
+    unfold pySlice pyIdx
+    have : ¬ ((n : ℤ) - 0 < 0) := by omega
+    simp only [this, if_false, List.drop_zero]
+    congr 1; omega
+  simp only [lt_irrefl, if_false, Int.toNat_zero, Nat.zero_min, Nat.sub_zero, hs, bind, Except.bind]
+  have hl : (row.take n).length = n := by simp [h]
+  have : assignBroadcast n (row.take n) = .ok (row.take n) := by
+    unfold assignBroadcast; rw [if_pos hl]
+  rw [this]; simp [pure, Except.pure]
+
+theorem trimToLength_trim (rows : List (List ℚ)) (n : ℕ) (tts : List ℚ) (dt stt : ℚ) (hdt : dt ≠ 0)
+    (hlen : rows.length = tts.length) (hw : ∀ r ∈ rows, n ≤ r.length) :
+    trimToLength rows n tts dt true false stt = .ok (rows.map (List.take n)) := by
+  unfold trimToLength
+  simp only [hdt, if_false, Bool.not_false, Bool.not_true, Bool.and_false, Bool.false_eq_true, trimWidth]
+  have hsis : ∀ i, (trimSis tts dt false stt).getD i 0 = 0 := by
+    intro i
+    simp only [trimSis, Bool.false_eq_true, if_false, List.getD_eq_getElem?_getD, List.getElem?_map]
+    cases (s2dShifts tts dt)[i]? <;> simp
+  have : (List.range tts.length).mapM (fun i =>
+        match rows[i]? with
+        | none => (.error .IndexError : Except ErrKind (List ℚ))
+        | some row => trimRow row n ((trimSis tts dt false stt).getD i 0))
+      = .ok ((List.range tts.length).map (fun i => (rows.getD i []).take n)) := by
+    apply mapM_ok
+    intro i hi
+    have hi' : i < rows.length := by rw [hlen]; simpa using hi
+    rw [List.getElem?_eq_getElem hi', hsis i]
+    simp only [List.getD_eq_getElem?_getD, List.getElem?_eq_getElem hi', Option.getD_some]
+    exact trimRow_zero _ _ (hw _ (List.getElem_mem hi'))
+  refine this.trans ?_
+  congr 1
+  apply List.ext_getElem
+  · simp [hlen]
+  · intro i h1 h2
+    simp only [List.getElem_map, List.getElem_range]
+    have hi' : i < rows.length := by simpa using h2
+    simp [List.getD_eq_getElem?_getD, List.getElem?_eq_getElem hi']
+
+
+/-! ### all-zero rows (C19.c: zero travel time, nodal, equal reductions) -/
+
+theorem eq_replicate_of_allZero (l : List ℚ) (h : ∀ v ∈ l, v = 0) : l = List.replicate l.length 0 :=
+  List.eq_replicate_iff.mpr ⟨rfl, h⟩
+
+theorem cumtrapzFrom_zero (dx : ℚ) (n : ℕ) :
+    cumtrapzFrom dx 0 0 (List.replicate n 0) = List.replicate n 0 := by
+  induction n with
+  | zero => rfl
+  | succ n ih =>
+    simp only [List.replicate_succ, cumtrapzFrom]
+    have : (0 : ℚ) + dx * (0 + 0) / 2 = 0 := by ring
+    rw [this, ih]
+
+theorem cumtrapz_zero (dx : ℚ) (n : ℕ) : cumtrapz dx (List.replicate n 0) = List.replicate n 0 := by
+  cases n with
+  | zero => rfl
+  | succ n => simp only [List.replicate_succ, cumtrapz, cumtrapzFrom_zero]
+
+theorem halfVAbsV_zero : halfVAbsV 0 = 0 := by simp [halfVAbsV]
+
+theorem diffFrom_zero (n : ℕ) : diffFrom (0 : ℚ) (List.replicate n 0) = List.replicate n 0 := by
+  induction n with
+  | zero => rfl
+  | succ n ih => simp only [List.replicate_succ, diffFrom, ih, sub_zero]
+
+theorem cumsumFrom_zero (n : ℕ) : cumsumFrom (0 : ℚ) (List.replicate n 0) = List.replicate n 0 := by
+  induction n with
+  | zero => rfl
+  | succ n ih => simp only [List.replicate_succ, cumsumFrom, add_zero, ih]
+
+theorem cumAbsRow_zero (n : ℕ) : cumAbsRow (List.replicate n 0) = List.replicate n 0 := by
+  unfold cumAbsRow cumsum absL
+  rw [diffFrom_zero, List.map_replicate]
+  have : absv (0 : ℚ) = 0 := by simp [absv]
+  rw [this, cumsumFrom_zero]
+
+theorem cumAbsRow_allZero (r : List ℚ) (h : ∀ v ∈ r, v = 0) : ∀ v ∈ cumAbsRow r, v = 0 := by
+  rw [eq_replicate_of_allZero r h, cumAbsRow_zero]
+  intro v hv; exact (List.mem_replicate.mp hv).2
+
+theorem maxShift_zero (tts : List ℚ) (dt : ℚ) (hne : tts ≠ []) (h0 : ∀ t ∈ tts, t = 0) :
+    maxShift tts dt = .ok 0 := by
+  cases tts with
+  | nil => exact absurd rfl hne
+  | cons t0 ts =>
+    unfold maxShift
+    simp only [List.map_cons, maxL?]
+    have hM : maxFrom (2 * t0 / dt) (ts.map (fun t => 2 * t / dt)) = 0 := by
+      rcases maxFrom_mem (2 * t0 / dt) (ts.map (fun t => 2 * t / dt)) with h | h
+      · rw [h, h0 t0 (by simp)]; simp
+      · obtain ⟨t, ht, hte⟩ := List.mem_map.mp h
+        rw [← hte, h0 t (by simp [ht])]; simp
+    rw [hM]
+    have : truncZ 0 = 0 := by decide +kernel
+    simp [this]
+
+theorem delayed_zero (values : List ℚ) : delayed values 0 (values.length + 0) = values := by
+  have := delayed_nat values 0 0 (le_refl 0)
+  rw [shiftedRow_zero_nat] at this
+  simpa using this
+
+theorem energyRow_zero (values : List ℚ) (dt u : ℚ) :
+    ∀ v ∈ energyRow values dt 0 0 true u u, v = 0 := by
+  have hacc : accRow values 0 0 true u u = List.replicate values.length 0 := by
+    unfold accRow
+    rw [delayed_zero]
+    simp only [List.replicate_zero, List.append_nil, if_true]
+    apply List.eq_replicate_iff.mpr
+    refine ⟨by simp, ?_⟩
+    intro v hv
+    rw [List.zipWith_self] at hv
+    obtain ⟨a, _, rfl⟩ := List.mem_map.mp hv
+    ring
+  unfold energyRow
+  rw [hacc, cumtrapz_zero, List.map_replicate, halfVAbsV_zero]
+  intro v hv; exact (List.mem_replicate.mp hv).2
+
+
+/-! ### homogeneity (C19.c: `E(α•a) = α·|α|·E(a)`, cumulative absolute change scales with `α²`) -/
+
+/-- apply a function to every sample of a result -/
+def Out.map (g : ℚ → ℚ) : Out → Out
+  | .row r => .row (r.map g)
+  | .rows rs => .rows (rs.map (List.map g))
+
+theorem mapM_map_comm {α β : Type} (f f' : α → Except ErrKind β) (h : β → β) (l : List α)
+    (hf : ∀ a, f' a = (f a).map h) : l.mapM f' = (l.mapM f).map (List.map h) := by
+  induction l with
+  | nil => rfl
+  | cons a as ih =>
+    rw [List.mapM_cons, List.mapM_cons, hf a, ih]
+    cases f a with
+    | error e => rfl
+    | ok b =>
+      cases as.mapM f with
+      | error e => rfl
+      | ok bs => rfl
+
+theorem delayed_smul (c : ℚ) (values : List ℚ) (s : ℚ) (w : ℕ) :
+    delayed (values.map (c * ·)) s w = (delayed values s w).map (c * ·) := by
+  unfold delayed
+  rw [List.map_map]
+  apply List.map_congr_left
+  intro k _
+  have := interpUnit_smul c values 0 0 ((k : ℚ) - s)
+  simpa using this
+
+theorem zipWith_map_both (f : ℚ → ℚ → ℚ) (g : ℚ → ℚ) (l l' : List ℚ)
+    (h : ∀ a b, f (g a) (g b) = g (f a b)) :
+    List.zipWith f (l.map g) (l'.map g) = (List.zipWith f l l').map g := by
+  induction l generalizing l' with
+  | nil => simp
+  | cons a as ih =>
+    cases l' with
+    | nil => simp
+    | cons b bs => simp [h, ih]
+
+theorem accRow_smul (c : ℚ) (values : List ℚ) (ms : ℕ) (s : ℚ) (nodal : Bool) (u d : ℚ) :
+    accRow (values.map (c * ·)) ms s nodal u d = (accRow values ms s nodal u d).map (c * ·) := by
+  unfold accRow
+  rw [List.length_map, delayed_smul]
+  have : values.map (c * ·) ++ List.replicate ms 0 = (values ++ List.replicate ms 0).map (c * ·) := by
+    simp
+  rw [this]
+  apply zipWith_map_both
+  intro a b; ring
+
+theorem halfVAbsV_smul (c v : ℚ) : halfVAbsV (c * v) = (c * |c|) * halfVAbsV v := by
+  simp only [halfVAbsV, absv_eq_abs, abs_mul]; ring
+
+theorem energyRow_smul (c : ℚ) (values : List ℚ) (dt : ℚ) (ms : ℕ) (s : ℚ) (nodal : Bool) (u d : ℚ) :
+    energyRow (values.map (c * ·)) dt ms s nodal u d
+      = (energyRow values dt ms s nodal u d).map ((c * |c|) * ·) := by
+  unfold energyRow
+  rw [accRow_smul, cumtrapz_smul, List.map_map, List.map_map]
+  apply List.map_congr_left
+  intro v _
+  simp only [Function.comp, halfVAbsV_smul]
+
+theorem pySlice_map {α β : Type} (g : α → β) (l : List α) (a b : Option ℤ) :
+    pySlice (l.map g) a b = (pySlice l a b).map g := by
+  unfold pySlice
+  simp only [List.length_map, List.map_drop, List.map_take]
+
+theorem assignBroadcast_map (β : ℚ) (t : ℕ) (src : List ℚ) :
+    assignBroadcast t (src.map (β * ·)) = (assignBroadcast t src).map (List.map (β * ·)) := by
+  unfold assignBroadcast
+  simp only [List.length_map]
+  split
+  · rfl
+  · split
+    · rename_i h1
+      have : (src.map (β * ·)).getD 0 0 = β * src.getD 0 0 := by
+        rw [getD_of_lt _ _ (by simp; omega), getD_of_lt _ _ (by omega)]; simp
+      rw [this]; simp [Except.map]
+    · rfl
+
+theorem trimRow_map (β : ℚ) (row : List ℚ) (n : ℕ) (sis : ℤ) :
+    trimRow (row.map (β * ·)) n sis = (trimRow row n sis).map (List.map (β * ·)) := by
+  unfold trimRow
+  split
+  · rw [pySlice_map, assignBroadcast_map]
+  · simp only [bind, Except.bind, pySlice_map, assignBroadcast_map]
+    cases assignBroadcast (n - min sis.toNat n) (pySlice row none (some ((n : ℤ) - sis))) with
+    | error e => rfl
+    | ok s => simp [Except.map, pure, Except.pure]
+
+theorem trimToLength_map (β : ℚ) (rows : List (List ℚ)) (n : ℕ) (tts : List ℚ) (dt : ℚ) (trim start : Bool)
+    (stt : ℚ) :
+    trimToLength (rows.map (List.map (β * ·))) n tts dt trim start stt
+      = (trimToLength rows n tts dt trim start stt).map (List.map (List.map (β * ·))) := by
+  unfold trimToLength
+  split
+  · rfl
+  split
+  · rfl
+  cases trimWidth n tts dt trim start stt with
+  | error e => rfl
+  | ok w =>
+    simp only
+    apply mapM_map_comm
+    intro i
+    simp only [List.getElem?_map]
+    cases rows[i]? with
+    | none => rfl
+    | some row => simp only [Option.map_some]; exact trimRow_map β row w _
+
+theorem squeeze_map (g : ℚ → ℚ) (m : ℕ) (rows : List (List ℚ)) :
+    squeeze m (rows.map (List.map g)) = (squeeze m rows).map (Out.map g) := by
+  unfold squeeze
+  split
+  · cases rows with
+    | nil => rfl
+    | cons r rs => rfl
+  · rfl
+
+theorem calcSurfaceEnergy_smul (c : ℚ) (values : List ℚ) (dt : ℚ) (tts : List ℚ) (nodal : Bool) (u d : ℚ)
+    (ms : ℕ) (stt : ℚ) (trim start : Bool)
+    (hdt : dt ≠ 0) (hv : values ≠ []) (hms : maxShift tts dt = .ok ms) :
+    calcSurfaceEnergy (values.map (c * ·)) dt tts nodal (.scalar u d) stt trim start
+      = (calcSurfaceEnergy values dt tts nodal (.scalar u d) stt trim start).map (Out.map ((c * |c|) * ·)) := by
+  have hv' : values.map (c * ·) ≠ [] := by simpa using hv
+  rw [calcSurfaceEnergy_scalar _ dt tts nodal u d ms stt trim start hdt hv' hms,
+    calcSurfaceEnergy_scalar _ dt tts nodal u d ms stt trim start hdt hv hms]
+  have : tts.map (fun t => energyRow (values.map (c * ·)) dt ms (2 * t / dt) nodal u d)
+      = (tts.map (fun t => energyRow values dt ms (2 * t / dt) nodal u d)).map (List.map ((c * |c|) * ·)) := by
+    rw [List.map_map]
+    apply List.map_congr_left
+    intro t _
+    simp only [Function.comp, energyRow_smul]
+  rw [this, List.length_map, trimToLength_map]
+  cases trimToLength (tts.map (fun t => energyRow values dt ms (2 * t / dt) nodal u d))
+      values.length tts dt trim start stt with
+  | error e => rfl
+  | ok rows =>
+    show squeeze tts.length (rows.map (List.map ((c * |c|) * ·))) = _
+    rw [squeeze_map]; rfl
+
+theorem diffFrom_smul (β p : ℚ) (r : List ℚ) :
+    diffFrom (β * p) (r.map (β * ·)) = (diffFrom p r).map (β * ·) := by
+  induction r generalizing p with
+  | nil => rfl
+  | cons x xs ih =>
+    simp only [List.map_cons, diffFrom, ih]
+    congr 1; ring
+
+theorem cumAbsRow_smul (β : ℚ) (r : List ℚ) :
+    cumAbsRow (r.map (β * ·)) = (cumAbsRow r).map (|β| * ·) := by
+  unfold cumAbsRow cumsum absL
+  have h1 := diffFrom_smul β 0 r
+  rw [mul_zero] at h1
+  rw [h1, List.map_map]
+  have h2 : (diffFrom 0 r).map (absv ∘ (β * ·)) = ((diffFrom 0 r).map absv).map (|β| * ·) := by
+    rw [List.map_map]
+    apply List.map_congr_left
+    intro x _
+    simp only [Function.comp, absv_eq_abs, abs_mul]
+  rw [h2]
+  have h3 := cumsumFrom_smul |β| 0 ((diffFrom 0 r).map absv)
+  rw [mul_zero] at h3
+  exact h3
+
+theorem calcCumAbs_smul (c : ℚ) (values : List ℚ) (dt : ℚ) (tts : List ℚ) (nodal : Bool) (u d : ℚ)
+    (ms : ℕ) (stt : ℚ) (trim start : Bool)
+    (hdt : dt ≠ 0) (hv : values ≠ []) (hms : maxShift tts dt = .ok ms) :
+    calcCumAbsSurfaceEnergy (values.map (c * ·)) dt tts nodal (.scalar u d) stt trim start
+      = (calcCumAbsSurfaceEnergy values dt tts nodal (.scalar u d) stt trim start).map (Out.map ((c ^ 2) * ·)) := by
+  unfold calcCumAbsSurfaceEnergy
+  rw [calcSurfaceEnergy_smul c values dt tts nodal u d ms stt trim start hdt hv hms]
+  have habs : abs (c * |c|) = c ^ 2 := by
+    rw [abs_mul, abs_abs, ← _root_.sq, sq_abs]
+  cases calcSurfaceEnergy values dt tts nodal (.scalar u d) stt trim start with
+  | error e => rfl
+  | ok e =>
+    cases e with
+    | row r =>
+      show (pure (Out.row (cumAbsRow (r.map ((c * |c|) * ·)))) : Except ErrKind Out) = _
+      rw [cumAbsRow_smul, habs]; rfl
+    | rows rs =>
+      show (pure (Out.rows ((rs.map (List.map ((c * |c|) * ·))).map cumAbsRow)) : Except ErrKind Out) = _
+      have : (rs.map (List.map ((c * |c|) * ·))).map cumAbsRow = (rs.map cumAbsRow).map (List.map ((c ^ 2) * ·)) := by
+        rw [List.map_map, List.map_map]
+        apply List.map_congr_left
+        intro r _
+        simp only [Function.comp, cumAbsRow_smul, habs]
+      rw [this]; rfl
 
 end EqsigVerif.Model.Surface
